@@ -164,6 +164,204 @@ func runC15(c *Ctx, r *Report) {
 	// R-C15.6: with an upper bound option the start set never falls back to the heads
 	r.Doc("R-C15.6", "on a path where an upper-bound option (LT/LTE) was seen, the start set handed to the traversal is never (re)assigned from the log's heads")
 	r.Doc("R-C15.7", "entries are emitted newest first and counted once: the traversal sorts its start set, re-sorts after every growth before taking the next entry, and marks every taken entry visited before pushing its predecessors (causally related upper bounds are not counted twice against the amount)")
+	r.Doc("R-C15.11", "an exclusive lower bound removes exactly the bound: the positional cut of the emitted list takes one element off its end, and the test on the list's length that guards it separates the empty list from the others")
+	{
+		ncut, ntest := 0, 0
+		for _, f := range AllFnsUnder(it) {
+			sf := p.SSAFunc(f)
+			if sf == nil {
+				continue
+			}
+			lp := NewLenProver(p, sf)
+			allInstrs(sf, false, func(ins ssa.Instruction) {
+				sl, ok := ins.(*ssa.Slice)
+				if !ok || sl.High == nil || sl.Low != nil {
+					return
+				}
+				st, ok := sl.X.Type().Underlying().(*types.Slice)
+				if !ok || !isNamed(st.Elem(), p.pkgPath("iface"), "IPFSLogEntry") {
+					return
+				}
+				ncut++
+				res, x := lp.lenTerm(sl), lp.lenTerm(sl.X)
+				up := res.add(x, -1).add(linConst(1), 1)    // len(res) - len(x) + 1 <= 0
+				down := x.add(res, -1).add(linConst(1), -1) // len(x) - len(res) - 1 <= 0
+				ok1, _, _ := lp.ProveAt(sl.Block(), sl, []lin{up})
+				ok2, _, _ := lp.ProveAt(sl.Block(), sl, []lin{down})
+				pos := sl.Pos()
+				if !pos.IsValid() {
+					pos = nearestPos(sl)
+				}
+				r.Check(ok1 && ok2, "R-C15.11", r.Key("R-C15.11", f, "cut-one", ""), pos, "len(after) = len(before) − 1 proved",
+					"the cut that removes the exclusive lower bound from the emitted list does not take exactly one element off its end: the bound itself is emitted, or an entry above it is lost")
+			})
+		}
+		// the guard: tests of len(<entry list>) against a constant in Iterator separate 0 from the rest
+		for _, fn := range p.AllViews(it) {
+			walkNoLit(fn.Body, func(n ast.Node) bool {
+				ifs, ok := n.(*ast.IfStmt)
+				if !ok {
+					return true
+				}
+				isLenOfEntries := func(e ast.Expr) bool {
+					call, ok := ast.Unparen(e).(*ast.CallExpr)
+					if !ok || p.Builtin(fn, call) != "len" || len(call.Args) != 1 {
+						return false
+					}
+					_, ok = p.TypeOf(fn, call.Args[0]).Underlying().(*types.Slice)
+					return ok // the emitted list, and the lists of bounds the caller gave
+				}
+				for _, alt := range dnfCond(ifs.Cond, true) {
+					for _, a := range alt {
+						nc, ok := p.normalizeCmp(fn, a, isLenOfEntries)
+						if !ok {
+							continue
+						}
+						ntest++
+						exact := (nc.Op == token.GTR && nc.C == 0) || (nc.Op == token.GEQ && nc.C == 1) || (nc.Op == token.NEQ && nc.C == 0) ||
+							(nc.Op == token.LEQ && nc.C == 0) || (nc.Op == token.LSS && nc.C == 1) || (nc.Op == token.EQL && nc.C == 0)
+						r.Check(exact, "R-C15.11", r.Key("R-C15.11", fn, "empty-test", ""), a.E.Pos(), "the test separates the empty list from the others",
+							"Iterator tests the length of a list with `"+types.ExprString(a.E)+"`, which does not separate the empty list from the others: with exactly one element (the exclusive bound left in the emitted list, a single upper bound given) the wrong branch is taken — the bound is emitted, or the iteration starts from the heads instead of the bound")
+					}
+				}
+				return true
+			})
+		}
+		if ncut == 0 {
+			r.Hold("R-C15.11", r.Key("R-C15.11", nil, "no-positional-cut", ""), token.NoPos, true, "Iterator removes nothing from the end of the emitted list by position")
+		}
+		_ = ntest
+	}
+	r.Doc("R-C15.12", "Iterator answers with an empty, closed channel without looking at the log only when the requested amount is zero")
+	{
+		// success returns that are reached without passing a send on the output channel and without the traversal
+		ef := &Flow{P: p, Fn: it, Entry: Facts{}}
+		isAmount := func(e ast.Expr) bool {
+			found := false
+			ast.Inspect(e, func(m ast.Node) bool {
+				if se, ok := m.(*ast.SelectorExpr); ok && se.Sel.Name == "Amount" {
+					found = true
+				}
+				return !found
+			})
+			if id, ok := ast.Unparen(e).(*ast.Ident); ok && !found {
+				if v, isVar := p.ObjOf(it, id).(*types.Var); isVar {
+					if def := p.SoleDef(it, v); def != nil {
+						ast.Inspect(def, func(m ast.Node) bool {
+							if se, ok := m.(*ast.SelectorExpr); ok && se.Sel.Name == "Amount" {
+								found = true
+							}
+							return !found
+						})
+					}
+				}
+			}
+			return found && isIntType(p.TypeOf(it, e))
+		}
+		ef.Edge = func(cond ast.Expr, taken bool, f Facts) {
+			for _, a := range splitCond(cond, taken) {
+				if nc, ok := p.normalizeCmp(it, a, isAmount); ok && nc.impliesNonPositive() && nc.holdsAt(0) {
+					f["zero-amount"] = true
+				}
+			}
+		}
+		ef.Node = func(n ast.Node, f Facts) {
+			walkNoLit(n, func(nd ast.Node) bool {
+				switch x := nd.(type) {
+				case *ast.CallExpr:
+					if cf := p.Callee(it, x); cf != nil && cf.Name() == "traverse" {
+						f["looked"] = true
+					}
+				}
+				return true
+			})
+		}
+		ef.Run()
+		nearly := 0
+		ef.Exits(func(_ *cfgBlk, ret *ast.ReturnStmt, at Facts) {
+			if ret == nil {
+				return
+			}
+			isNil, hasErr := errResultIsNil(p, it, ret)
+			if !hasErr || !isNil || at["looked"] {
+				return
+			}
+			nearly++
+			r.Check(at["zero-amount"], "R-C15.12", r.Key("R-C15.12", it, "early-success", ""), ret.Pos(), "the early success return is reached only with an amount known to be zero",
+				"Iterator returns success without traversing the log on a path where the requested amount is not known to be zero: a request for one (or more) entries is answered with none")
+		})
+		if nearly == 0 {
+			r.Hold("R-C15.12", r.Key("R-C15.12", nil, "no-early-success", ""), token.NoPos, true, "every success return of Iterator follows the traversal")
+		}
+	}
+	r.Doc("R-C15.13", "the constants Iterator's limit variables start from mean 'no limit': a local that is sign-tested as a limit, or handed to the traversal as its count, is only ever set to a negative constant or to the caller's amount")
+	{
+		limitVars := map[types.Object]bool{}
+		for _, fn := range p.AllViews(it) {
+			walkNoLit(fn.Body, func(n ast.Node) bool {
+				switch x := n.(type) {
+				case *ast.IfStmt:
+					for _, alt := range dnfCond(x.Cond, true) {
+						for _, a := range alt {
+							var subj types.Object
+							nc, ok := p.normalizeCmp(fn, a, func(e ast.Expr) bool {
+								id, ok := ast.Unparen(e).(*ast.Ident)
+								if !ok {
+									return false
+								}
+								v, isVar := p.ObjOf(fn, id).(*types.Var)
+								if !isVar || v.IsField() || !isIntType(v.Type()) {
+									return false
+								}
+								subj = v
+								return true
+							})
+							if ok && subj != nil && (nc.impliesNonNegative() && nc.C <= 0 || nc.impliesNegative()) {
+								limitVars[subj] = true
+							}
+						}
+					}
+				case *ast.CallExpr:
+					if cf := p.Callee(fn, x); cf != nil && cf.Name() == "traverse" {
+						for _, a := range x.Args {
+							if id, ok := ast.Unparen(a).(*ast.Ident); ok {
+								if v, isVar := p.ObjOf(fn, id).(*types.Var); isVar && isIntType(v.Type()) {
+									limitVars[v] = true
+								}
+							}
+						}
+					}
+				}
+				return true
+			})
+		}
+		nconst := 0
+		for _, fn := range p.AllViews(it) {
+			walkNoLit(fn.Body, func(n ast.Node) bool {
+				as, ok := n.(*ast.AssignStmt)
+				if !ok || len(as.Lhs) != len(as.Rhs) {
+					return true
+				}
+				for i, l := range as.Lhs {
+					id, ok := ast.Unparen(l).(*ast.Ident)
+					if !ok || !limitVars[p.ObjOf(fn, id)] {
+						continue
+					}
+					v, isC := p.constInt(fn, as.Rhs[i])
+					if !isC {
+						continue
+					}
+					nconst++
+					r.Check(v < 0, "R-C15.13", r.Key("R-C15.13", fn, "sentinel", id.Name), as.Pos(), fmt.Sprintf("%s starts from %d (no limit)", id.Name, v),
+						fmt.Sprintf("%s is set to the constant %d, which the later tests read as a limit of %d entries rather than as 'no limit': an iteration without an amount emits nothing (or one entry)", id.Name, v, v))
+				}
+				return true
+			})
+		}
+		if nconst == 0 {
+			r.Hold("R-C15.13", r.Key("R-C15.13", nil, "no-sentinel", ""), token.NoPos, true, "no limit variable of Iterator is set from a constant")
+		}
+	}
 	r.Doc("R-C15.10", "the starting set of an iteration collects something for every given bound: the loop that gathers it never overwrites what earlier bounds contributed")
 	iterReach := c.CG.Reach([]*Fn{p.Func("", "IPFSLog", "Iterator")}, false)
 	accumulatorsKept(c, r, "R-C15.10", func(fn *Fn) bool { _, ok := iterReach[fn.Root()]; return ok && inPkgs(p, fn, "", "entry") }, 2, "the entries below the earlier bounds are never emitted")
@@ -202,10 +400,9 @@ func runC15(c *Ctx, r *Report) {
 						leaves(e, depth+1)
 					}
 				case *ssa.Const:
-					if x.Value == nil || x.Int64() != -1 {
-						if x.Value != nil && x.Int64() >= 0 {
-							return // a constant bound is not larger than itself; amounts are compared later
-						}
+					// any negative constant means "no limit"; a constant bound is not larger than itself (what the
+					// limit variables start from is R-C15.13)
+					if x.Value == nil {
 						bad = "the constant " + x.String()
 					}
 				case *ssa.UnOp:
